@@ -124,7 +124,7 @@ def include(col, modname, fname, kwargs, oid, why, select=None, select_oid=None)
     for o in sub.obs:
         if select is not None and not select(o):
             continue
-        if select_oid is not None and o["oid"] not in (select_oid, "task"):
+        if select_oid is not None and o["oid"] not in ((tuple(select_oid) if isinstance(select_oid, (tuple, list)) else (select_oid,)) + ("task",)):
             continue
         o = dict(o)
         o["rule"] = "%s [%s; decided by the %s machinery, obligation %s]" % (o["rule"], why, modname.upper(), o["oid"])
